@@ -204,6 +204,22 @@ def _large_case(args):
             it2 = AnnDataRowIterator(p, row_chunk_size=k, tmp_dir=d, max_gb=gb)
             if not np.array_equal(np.asarray(it2.get_batch(sel)), M[sel].astype('float32')):
                 out.append(('rows:large-batch', f'{enc} {nr}x{nc} rows={sel}: batch differs'))
+            # an arbitrary list may name a row twice
+            rep = sel + [sel[0]] if seed % 2 else [sel[-1]] + sel
+            try:
+                got = np.asarray(it2.get_batch(rep))
+                if not np.array_equal(got, M[rep].astype('float32')):
+                    out.append(('rows:batch-repeated-row', f'{enc} {nr}x{nc} rows={rep}: batch differs'))
+            except Exception as e:
+                out.append(('rows:batch-repeated-row', f'{enc}: a row list that names a row twice ({rep[:6]}...) ends with '
+                                                       f'{type(e).__name__}: {str(e)[:80]}'))
+            # ... or no row at all
+            try:
+                got = np.asarray(it2.get_batch([]))
+                if got.shape != (0, nc):
+                    out.append(('rows:batch-empty-list', f'{enc}: the empty row list gives shape {got.shape}'))
+            except Exception as e:
+                out.append(('rows:batch-empty-list', f'{enc}: the empty row list ends with {type(e).__name__}: {str(e)[:80]}'))
             del it, it2
         import gc
         gc.collect()
